@@ -541,25 +541,32 @@ func h1Headers(e *env) {
 		}()
 	}
 	wg.Wait()
-	// the asterisk form of the request target (OPTIONS *), once per route, one after the other
-	for _, route := range h1Routes[:3] {
-		e.emit(he.starCase(route))
+	// questions about the server as a whole (HTTPMsg.tla ServerWideForms), one after the other:
+	// the asterisk form of the request target (OPTIONS *) and the absolute form with an empty path
+	for _, t := range strings.Split(e.args["serverwide"], ",") {
+		if f := strings.SplitN(t, "/", 3); len(f) == 3 {
+			e.emit(he.starCase(f[1], f[0], f[2]))
+		}
 	}
 }
 
 // starCase: "OPTIONS *" asks about the server as a whole. An origin must see the asterisk form; a next proxy
 // the absolute form with an empty path (RFC 7230 5.3.4), which it turns back into "*".
-func (he *h1Env) starCase(route string) map[string]any {
-	res := map[string]any{"ok": true, "ids": []string{"asterisk"}, "route": route, "method": "OPTIONS", "target": "*", "nt": true}
+func (he *h1Env) starCase(route, form, want string) map[string]any {
+	sent := "*"
+	if form == "emptypath" {
+		sent = "http://origin.test"
+	}
+	res := map[string]any{"ok": true, "ids": []string{form}, "route": route, "method": "OPTIONS", "target": sent, "nt": true}
 	fail := func(why string) {
-		why = "asterisk-form: " + why
+		why = map[string]string{"asterisk": "asterisk-form: ", "emptypath": "options-empty-path: "}[form] + why
 		if res["ok"] == true {
 			res["ok"], res["why"] = false, why
 		}
 		res["whys"] = append(res["whys"].([]string), why)
 	}
 	res["whys"] = []string{}
-	sc := &script{id: "star-" + route, up: upShape{St: 200, Fr: "cl", Sz: 1}, done: make(chan struct{})}
+	sc := &script{id: form + "-" + route, up: upShape{St: 200, Fr: "cl", Sz: 1}, done: make(chan struct{})}
 	sc.body = []byte("ok")
 	he.hop.put("*", sc)
 	he.hop.put("/", sc) // whatever the target has become, the request is taken for this case
@@ -568,7 +575,7 @@ func (he *h1Env) starCase(route string) map[string]any {
 		fatal("open: %v", err)
 	}
 	defer cl.raw.close()
-	cl.raw.send([]byte("OPTIONS * HTTP/1.1\r\nHost: origin.test\r\n\r\n"))
+	cl.raw.send([]byte("OPTIONS " + sent + " HTTP/1.1\r\nHost: origin.test\r\n\r\n"))
 	resp, err := cl.raw.recv("OPTIONS", 8*time.Second)
 	if err != nil {
 		fail("no parsable response: " + err.Error())
@@ -582,10 +589,6 @@ func (he *h1Env) starCase(route string) map[string]any {
 	case <-time.After(2 * time.Second):
 		fail("request never reached the next hop")
 		return res
-	}
-	want := "*"
-	if route == "upstream" {
-		want = "http://origin.test"
 	}
 	res["hop_saw"] = []string{sc.req.Method + " " + sc.req.Target + " " + sc.req.Version}
 	if sc.req.Method != "OPTIONS" || sc.req.Target != want {
